@@ -2516,6 +2516,25 @@ theorem C09_aggr_no_missing_element {F} (env : Env F) (hm : env.cfg.aggrReportsM
     (if env.cfg.aggrSkipsComments then readTokenSeparator s else s).peekC.1 ≠ 41 :=
   elemRead_not_missing env hm ty s s1 e v h hne
 
+/-- aggregate, never silent — the element's part, INTEGER, mid-stream: one round of the element loop standing anywhere in a
+    stream (arbitrary consumed side, either state of `skipws`), the token-separator skip having left a stream without
+    pending flags in front of a non-blank character `c`: when the round reports nothing worse than INCOMPLETE — as every
+    element of a `LoopRun` does (`C09_aggr_never_silent_partial`) — its severity is NULL, what it took is a token of the
+    `integer` grammar in `long` range followed by separators, the stored value is the token's, and the stream rests at its
+    end or in front of a delimiter.  Together: an aggregate of INTEGER stored without error consists of grammar tokens
+    with their values, one per position.  The hypothesis `hsA` names what is not proved here: a specification of
+    `ReadTokenSeparator` (comments and print control directives, C01's model) on arbitrary input; the other element kinds
+    have this statement at attribute level only (`C09_never_silent_*`). -/
+theorem C09_aggr_integer_element_never_silent {F} (env : Env F) (hcfg : env.lex.intReportsFail = true) (s : IStream)
+    (l : List Byte) (c : Byte) (t : List Byte) (sk : Bool)
+    (hsA : (if env.cfg.aggrSkipsComments then readTokenSeparator s else s) = G l (c :: t) sk) (hc : isSpace c = false)
+    (e : Sev) (v : Elem F) (s1 : IStream)
+    (h : elemRead env .integer s = .ok (e, v, s1)) (hne : ¬ e.toInt < Sev.incomplete.toInt) :
+    e = .null ∧ ∃ tok sp2 sp3, c :: t = tok ++ sp2 ++ sp3 ++ s1.right ∧ Between env.lex sp2 ∧ Between env.lex sp3 ∧
+      isInteger tok = true ∧ longMin ≤ denoteInteger tok ∧ denoteInteger tok ≤ longMax ∧
+      v = .atom (valueToAtom (intValue (some (denoteInteger tok)) : Value F)) ∧ AtDelimOrEnd env.lex s1.right :=
+  elemRead_integer_sound env hcfg s l c t sk hsA hc e v s1 h hne
+
 /-- a `LoopRun` stores one value per element-reader call (so the count of stored elements is the count of element positions) -/
 theorem C09_aggr_looprun_elements {F} (env : Env F) (ty : ElemTy) (c : Byte) (s sf : IStream) (vs : List (Elem F))
     (h : LoopRun env ty c s vs sf) :
